@@ -663,9 +663,9 @@ def run(chk, ctx):
     splits_and_bookkeeping(chk, ctx, rng, tier)
     for rep in range(4 if tier == 'quick' else 20):
         case_cells(chk, ctx, rng, 24)
-    for rep in range(4 if tier == 'quick' else 60):
+    for rep in range(4 if tier == 'quick' else 150):
         one_round(chk, ctx, rng, tier, do_k=True)
-    for rep in range(15 if tier == 'quick' else 300):
+    for rep in range(15 if tier == 'quick' else 600):
         one_round(chk, ctx, rng, tier, do_k=False)
     for f in chk.failures:
         chk.stat('failing:' + f['key'])
